@@ -99,7 +99,7 @@ ENDS = ("trap", "iter", "falsy", "genlike")
 
 SRC = '''
 async def co_{i}(nxt, pre):
-    if pre:
+{hide}    if pre:
         await trap("pre")
     return await nxt
 
@@ -110,7 +110,7 @@ def gco_{i}(nxt, pre):
     return (yield from nxt)
 
 def gen_{i}(nxt, pre):
-    if pre:
+{hide}    if pre:
         yield "pre"
     return (yield from nxt)
 
@@ -175,7 +175,9 @@ class Exiter(object):
 
 NS = {"types": types, "trap": trap, "Exiter": Exiter}
 for _i in range(8):
-    exec(compile(SRC.format(i=_i), "<chain%d>" % _i, "exec"), NS)
+    # every second family of link functions declares __tracebackhide__ without ever binding it (the helper idiom
+    # `if quiet: __tracebackhide__ = True` with quiet false): such a frame is an ordinary, visible frame
+    exec(compile(SRC.format(i=_i, hide=("    if pre is None:\n        __tracebackhide__ = True\n" if _i % 2 else "")), "<chain%d>" % _i, "exec"), NS)
 
 AW_KINDS = ["co", "gco", "wrap", "awgen", "asend", "anext", "afor", "athrow", "aclose", "asendv", "aexit"]
 GEN_KINDS = ["yf"]
